@@ -141,6 +141,8 @@ pub fn gen_case(rng: &mut Rng) -> (String, &'static str) {
         }
     } else if rng.chance(1, 4) {
         (refimpl::sentence::wide_case(rng), "wide")
+    } else if rng.chance(1, 4) {
+        (refimpl::sentence::bracket_text_case(rng), "bracket-text")
     } else if rng.chance(1, 3) {
         let mut parts = vec![];
         let budget = 2 + rng.below(8) as i32;
